@@ -24,15 +24,31 @@ THEOREMS = ["C10_inplace", "C10_rebuilt", "C10_failure_untouched", "C10_historie
 QFLAGS = "-Q ../base FlacBase -Q . FlacUpdIo"
 
 
-def proof_stage(chk, theorems, requires_extra=()):
+E2E_THEOREMS = ["C10_real_codec_hypotheses", "C10_readers_agree", "C10_real_codec_inplace", "C10_real_codec_rebuilt",
+                "C10_real_codec_history", "C10_real_codec_same_decoding", "C10_real_codec_example_inplace",
+                "C10_real_codec_example_rebuilt", "C10_real_codec_example_hypotheses"]
+
+
+def proof_stage(chk, theorems, requires_extra=(), composed=False):
+    requires = ["Coq.Lists.List", "Coq.NArith.NArith", "FlacBase.Res", "FlacBase.Bits", "FlacUpdIo.Update",
+                "FlacUpdIo.Update_proofs", "FlacUpdIo.Pins"] + list(requires_extra)
+    files = [f for f in vlib.coq_files(AREA) if f not in ("GenUpd.v", "Extract.v")]
+    gen = ["python3 %s/tools/gen_crc.py %s %s/GenCrc.v" % (VERIF, vlib.REPO, BASE),
+           "python3 %s/tools/gen_updateio.py %s %s/GenUpd.v" % (VERIF, vlib.REPO, AREA)]
+    if composed:
+        # C10 also claims the theorems of coq/e2eupd: update_file run with the metadata area's real reader/writer
+        # and judged by the codec area's decoder front end
+        cq = lambda d: os.path.join(VERIF, "coq", d)
+        gen.append("python3 %s/tools/gen_stream.py %s %s/GenStream.v" % (VERIF, vlib.REPO, cq("codec")))
+        gen.append("python3 %s/tools/gen_metadata.py %s %s/GenMeta.v" % (VERIF, vlib.REPO, cq("metadata")))
+        return vlib.proof_stage(
+            chk, coq_dirs=[BASE, cq("codec"), cq("metadata"), AREA, cq("e2eupd")], build_dir=cq("e2eupd"),
+            qflags="-Q ../base FlacBase -Q ../codec FlacCodec -Q ../metadata FlacMeta -Q ../updateio FlacUpdIo -Q . FlacE2EUpd",
+            requires=requires + ["FlacUpdIo.Update_cond", "FlacE2EUpd.Props_E2EUpd"], theorems=theorems + E2E_THEOREMS,
+            obligation_files=[(AREA, files), (cq("e2eupd"), vlib.coq_files(cq("e2eupd")))], gen_steps=gen)
     return vlib.proof_stage(
-        chk, coq_dirs=[BASE, AREA], build_dir=AREA, qflags=QFLAGS,
-        requires=["Coq.Lists.List", "Coq.NArith.NArith", "FlacBase.Res", "FlacBase.Bits", "FlacUpdIo.Update",
-                  "FlacUpdIo.Update_proofs", "FlacUpdIo.Pins"] + list(requires_extra),
-        theorems=theorems,
-        obligation_files=[(AREA, [f for f in vlib.coq_files(AREA) if f not in ("GenUpd.v", "Extract.v")])],
-        gen_steps=["python3 %s/tools/gen_crc.py %s %s/GenCrc.v" % (VERIF, vlib.REPO, BASE),
-                   "python3 %s/tools/gen_updateio.py %s %s/GenUpd.v" % (VERIF, vlib.REPO, AREA)])
+        chk, coq_dirs=[BASE, AREA], build_dir=AREA, qflags=QFLAGS, requires=requires, theorems=theorems,
+        obligation_files=[(AREA, files)], gen_steps=gen)
 
 
 def build_driver(chk):
@@ -77,7 +93,7 @@ def run(chk):
         "the model's update_file mirrors src/metadata/mod.rs:1171-1297; this is checked by running the extracted decision function against every update the harness performs, not proved",
         "I/O faults are out of scope here (C13); the file is a byte list",
     ]
-    proof_ok = proof_stage(chk, THEOREMS, ["FlacUpdIo.Props_C10"])
+    proof_ok = proof_stage(chk, THEOREMS, ["FlacUpdIo.Props_C10"], composed=True)
 
     tmp = os.path.join(CACHE, "tmp", "c10-%d" % os.getpid())
     os.makedirs(tmp, exist_ok=True)
